@@ -98,7 +98,7 @@ func runC12Par(t *testing.T, tp *simrt.Tape, keepTrace bool) hx.Result {
 	log := simos.StateOf(proc).Log
 	installed := 0
 	for _, o := range log {
-		if o.Name == "rename" && (strings.HasSuffix(o.Path, ".zoekt") || strings.HasSuffix(o.Path, ".meta")) && (proc.Dead && o.K < k || !proc.Dead) {
+		if (o.Name == "rename" || o.Name == "remove") && (strings.HasSuffix(o.Path, ".zoekt") || strings.HasSuffix(o.Path, ".meta")) && (proc.Dead && o.K < k || !proc.Dead) {
 			installed++
 		}
 	}
